@@ -420,6 +420,34 @@ var harnesses = []harness{
 		e.thread("Shutdown", e.shutdown)
 		e.finish(false)
 	}},
+	{Name: "S11", Desc: "established connection busy in both directions: inbound message || SendMessage || Shutdown", Overlap: []string{"SendMessage"}, Body: func(o *obs) {
+		e := newEnv(o, false)
+		e.run()
+		var goAhead vsync.WaitGroup
+		vsync.Init(&goAhead, "goAhead")
+		goAhead.Add(1)
+		e.background("peer", func() {
+			c, err := vnet.DialFrom(peerA, poolAddr)
+			if err != nil {
+				panic(err)
+			}
+			goAhead.Wait()
+			b, _ := gnet.EncodeMessage(&pingMsg{X: 7})
+			if _, err := c.Write(b); err != nil {
+				o.count("peer-write-failed")
+			}
+			drain(c)
+			c.Close()
+		})
+		vsched.Quiesce()
+		vsched.StartExploring()
+		goAhead.Done()
+		e.thread("SendMessage", func() {
+			call(o, "SendMessage", func() error { return e.pool.SendMessage(peerA, &pingMsg{X: 1}) })
+		})
+		e.thread("Shutdown", e.shutdown)
+		e.finish(false)
+	}},
 	{Name: "S10", Desc: "outgoing Connect to a default peer || Disconnect of that peer (then Shutdown)", Overlap2: [2]string{"Connect", "Disconnect"}, Body: func(o *obs) {
 		e := newEnv(o, false)
 		e.run()
